@@ -82,8 +82,8 @@ PLANS = {
     },
     "C12": {
         "rule": "codec engine over h2::Codec with a scripted transport: (ser) generated frames of every type the endpoint can emit (DATA 0..2^24-1 bytes, HEADERS/PUSH_PROMISE with blocks up to 200 kB => CONTINUATION, SETTINGS, PING, GOAWAY with up to 16 kB debug data, WINDOW_UPDATE, RST_STREAM; max_send_frame_size changed between frames) flushed through a transport that accepts k bytes per call for scripted k (1, 1-then-Pending, ..., whole), vectored or not, lazy flush: the byte stream must equal the accept-everything run, the independent parser must parse it back to the submitted frames, every payload <= max_send_frame_size, oversize DATA refused with PayloadTooBig; (parse) well-formed frames of all ten types with every flag combination, padding 0..255, priority fields, unknown types, header blocks from the reference encoder with every representation choice, fed under 9 read chunkings incl. one byte at a time with Pending in between: same Frame values under all chunkings and equal to the reference parser; (oversize) a frame announcing more than the advertised limit yields FRAME_SIZE_ERROR after the 9 header bytes, before any body byte is supplied; plus the wire rule in sim runs (every emitted payload <= the peer's acknowledged MAX_FRAME_SIZE). Non-trivial iff a write was partial, a frame had exactly the maximum size or a block used CONTINUATION (ser), always for parse/oversize; distinct by fingerprint of the emitted/parsed frame sequence and chunking.",
-        "quick": [codec("ser", 12000), codec("parse", 8000), codec("oversize", 3000), sim("fidelity", 4000), sim("settings", 2000)],
-        "thorough": [codec("ser", 300000), codec("ser", 20000, extra=["--big-sizes"], label="codec-ser-2^24"), codec("parse", 200000), codec("oversize", 50000), sim("fidelity", 100000), sim("settings", 50000)],
+        "quick": [codec("ser", 12000), codec("parse", 8000), codec("oversize", 3000), sim("fidelity", 4000), sim("settings", 2000), codec("ser", 3200, profile="asan", label="codec-ser-asan"), codec("parse", 3200, profile="asan", label="codec-parse-asan")],
+        "thorough": [codec("ser", 300000), codec("ser", 20000, extra=["--big-sizes"], label="codec-ser-2^24"), codec("parse", 200000), codec("oversize", 50000), sim("fidelity", 100000), sim("settings", 50000), codec("ser", 60000, profile="asan", label="codec-ser-asan"), codec("parse", 60000, profile="asan", label="codec-parse-asan"), codec("parse", 64, profile="miri", label="codec-parse-miri", timeout=6000)],
         "min_nontrivial": {"quick": 500, "thorough": 5000},
         "require_stats": {"quick": {"ser.partial_writes": 10000, "ser.blocks_with_continuation": 100, "parse.frames": 10000, "oversize.rejected_before_body": 1000}, "thorough": {}},
         "assumptions": COMMON_ASSUME + ["sending PRIORITY is unimplemented!() in the codec and unreachable from the endpoint API: excluded on the serialise side"],
@@ -129,16 +129,16 @@ PLANS = {
     },
     "C19": {
         "rule": "sim engine: a first wave of streams ending by every path with handle drops at random instants, quiescence with the connection alive (hook-H2 snapshot must show nothing retained outside the reset memory, counters and windows idle), a second wave on the recycled slots, then idle close (GOAWAY(NO_ERROR), transport shutdown, Ok(())). Non-trivial iff a stream ended by a non-clean path or the forgetting check ran; distinct by behaviour fingerprint.",
-        "quick": [sim("forget", 14000), sim("general", 2000)],
-        "thorough": [sim("forget", 350000), sim("general", 50000)],
+        "quick": [sim("forget", 14000), sim("general", 2000), sim("forget", 800, profile="asan", label="sim-forget-asan")],
+        "thorough": [sim("forget", 350000), sim("general", 50000), sim("forget", 60000, profile="asan", label="sim-forget-asan")],
         "min_nontrivial": {"quick": 500, "thorough": 5000},
         "require_stats": {"quick": {"forget_checks": 2000, "idle_close_checked": 2000, "second_wave_completed": 500}, "thorough": {}},
         "assumptions": COMMON_ASSUME,
     },
     "C08": {
         "rule": "raw engine: one h2 endpoint (either role, application programs running within documented preconditions) fed hostile input by the scripted peer at PRNG-drawn fragmentation: (fuzz) grammar-generated frames of every type in arbitrary order/state with odd header lists, mutated legal transcripts (bit flips, length/type/id edits, truncation, duplication, splicing), extremes (600-entry SETTINGS, WINDOW_UPDATE storms, 400-field blocks split into 100-byte CONTINUATIONs, 255-byte padding, 16 MiB length announcements, PING bursts), random bytes; (catalogue) 63 RFC violation / legal-but-unusual items x 6 stream state classes after a legal prefix; (headers) malformed/well-formed messages. Oracles: catch_unwind around every poll and drop (any panic out of h2), self-wake busy-loop detector, connection polls per input byte bounded, quiescence + every operation resolved + connection future completed after EOF. Every execution is non-trivial (the input differs from anything a conforming peer sends or is a violation by construction); distinct by behaviour fingerprint.",
-        "quick": [raw("fuzz", 12000), raw("catalogue", 3000), raw("headers", 3000), sim("general", 2000, coop="no")],
-        "thorough": [raw("fuzz", 400000), raw("catalogue", 80000), raw("headers", 80000), sim("general", 50000, coop="no"), raw("fuzz", 60000, profile="release", label="raw-fuzz-release")],
+        "quick": [raw("fuzz", 12000), raw("catalogue", 3000), raw("headers", 3000), sim("general", 2000, coop="no"), raw("fuzz", 6400, profile="asan", label="raw-fuzz-asan")],
+        "thorough": [raw("fuzz", 400000), raw("catalogue", 80000), raw("headers", 80000), sim("general", 50000, coop="no"), raw("fuzz", 60000, profile="release", label="raw-fuzz-release"), raw("fuzz", 120000, profile="asan", label="raw-fuzz-asan"), raw("fuzz", 32, profile="miri", label="raw-fuzz-miri", timeout=6000), codec("parse", 64, profile="miri", label="codec-parse-miri", timeout=6000)],
         "min_nontrivial": {"quick": 1000, "thorough": 10000},
         "require_stats": {"quick": {"fuzz.class.grammar": 1000, "fuzz.class.mutation": 1000, "fuzz.class.extremes": 500, "fuzz.class.random": 500, "catalogue.applied": 500}, "thorough": {}},
         "assumptions": COMMON_ASSUME + ["the test-only drop assertions of h2's `unstable` feature (Store::drop slab.is_empty, Counts::drop !has_streams) are triaged as notes, not as panics", "debug profile (debug_assert and overflow checks on); the thorough tier repeats a slice in release"],
@@ -161,16 +161,16 @@ PLANS = {
     },
     "C10": {
         "rule": "codec engine, family ser-hpack: histories of 1-60 header blocks (requests with every method kind, responses, trailers, pushes; field pool with static-table names and values, colliding custom names, repeated names with few distinct values, values from empty to 6 kB) sent through the real send path (h2::frame::Headers / PushPromise buffered into h2::Codec, so CONTINUATION split points are h2's own), with peer SETTINGS_HEADER_TABLE_SIZE events between blocks drawn from {0,1,31,32,33,64,100,150,200,4096,4097,65536,2^32-1} (applied, like h2 does, only when the codec is ready) and max_frame_size changes. The emitted bytes are reassembled by the independent frame parser and decoded by (i) the reference decoder in strict mode (size update <= allowed, a reduction signalled at the start of the next block with the minimum first, mirror table <= allowed), (ii) nghttp2's inflater, (iii) h2's own decoder through a second Codec: all must return the submitted fields. Family huffman: h2's Huffman encoder output equals the RFC code. Plus the sim wire rule (every block either endpoint emits decodes; size updates <= the peer's acknowledged table size). Non-trivial iff an eviction or a table-size change occurred in the history; distinct by fingerprint of the emitted frame sequence.",
-        "quick": [codec("ser-hpack", 12000), codec("huffman", 2000), sim("settings", 3000)],
-        "thorough": [codec("ser-hpack", 400000), codec("huffman", 50000), sim("settings", 100000), sim("fidelity", 100000)],
+        "quick": [codec("ser-hpack", 12000), codec("huffman", 2000), sim("settings", 3000), codec("ser-hpack", 3200, profile="asan", label="codec-ser-hpack-asan")],
+        "thorough": [codec("ser-hpack", 400000), codec("huffman", 50000), sim("settings", 100000), sim("fidelity", 100000), codec("ser-hpack", 60000, profile="asan", label="codec-ser-hpack-asan"), codec("ser-hpack", 64, profile="miri", label="codec-ser-hpack-miri", timeout=6000)],
         "min_nontrivial": {"quick": 1000, "thorough": 10000},
         "require_stats": {"quick": {"hpack.evictions": 10000, "hpack.table_size_changes": 3000, "hpack.size_updates_emitted": 1000, "nghttp2.blocks_inflated": 50000, "ser.blocks_with_continuation": 100}, "thorough": {}},
         "assumptions": COMMON_ASSUME + ["cross-name field order is compared as HeaderMap iterates it but only per-name value sequences are a verdict", "pseudo-header fields cannot be built for a direct Encoder call from outside the crate (BytesStr constructors are crate-private): they are covered through the Codec path only"],
     },
     "C11": {
         "rule": "codec engine, family hpackdec: h2::verif::Decoder (hook H1) driven like framed_read.rs does, against the reference decoder written from RFC 7541 (Appendix A table, Appendix B text walked bit by bit). Histories of 1-25 blocks built by the reference encoder with every representation choice per field (indexed / literal with, without, never indexed; indexed or literal name; Huffman or raw; padded integers; legal size updates at block start), then one defect: index 0, index past the table, size update after a field, size update above the limit, EOS / over-long Huffman padding, integer overflow, truncation, bit flip. Oracles: soundness (h2 Ok => reference Ok with the same list), completeness on the safe subset, table size == reference and <= limit after every block, split invariance (same block whole vs every split offset up to 64 bytes / 16 sampled, 2- and 3-way, identical history). Families huffman / huffman-exhaustive: every byte string of length <= 2 (quick) / <= 3 (thorough, 16.8 M) plus sampled longer ones decoded by h2 and by the reference. Non-trivial iff the block exercises a dynamic-table reference, a Huffman string, a multi-octet integer, a size update, or is invalid; distinct by fingerprint of the per-block verdict sequence.",
-        "quick": [codec("hpackdec", 60000), codec("huffman", 4000), codec("huffman-exhaustive", 65808, extra=["--max-len", "2"], label="codec-huffman-exhaustive<=2")],
-        "thorough": [codec("hpackdec", 400000), codec("huffman", 50000), codec("huffman-exhaustive", 16843024, extra=["--max-len", "3"], label="codec-huffman-exhaustive<=3")],
+        "quick": [codec("hpackdec", 60000), codec("huffman", 4000), codec("huffman-exhaustive", 65808, extra=["--max-len", "2"], label="codec-huffman-exhaustive<=2"), codec("hpackdec", 6400, profile="asan", label="codec-hpackdec-asan"), codec("huffman", 3200, profile="asan", label="codec-huffman-asan")],
+        "thorough": [codec("hpackdec", 400000), codec("huffman", 50000), codec("huffman-exhaustive", 16843024, extra=["--max-len", "3"], label="codec-huffman-exhaustive<=3"), codec("hpackdec", 100000, profile="asan", label="codec-hpackdec-asan"), codec("huffman", 50000, profile="asan", label="codec-huffman-asan"), codec("hpackdec", 128, profile="miri", label="codec-hpackdec-miri", timeout=6000), codec("huffman", 320, profile="miri", label="codec-huffman-miri", timeout=6000)],
         "min_nontrivial": {"quick": 1000, "thorough": 10000},
         "require_stats": {"quick": {"hpackdec.blocks_agreed_ok": 100000, "hpackdec.blocks_agreed_err": 5000, "hpackdec.splits_tried": 500000, "huffman.exhaustive_strings": 65793}, "thorough": {"huffman.exhaustive_strings": 16843009}},
         "exhaustive_note": "Huffman decoding: all byte strings of length <= 2 (quick) / <= 3 (thorough) are enumerated completely; everything else is sampled",
